@@ -751,8 +751,9 @@ def str_parts(e: ast.AST) -> list[str] | None:
     return out
 
 
-def single_defs(fn: ast.FunctionDef) -> dict[str, ast.AST]:
-    """Locals of fn bound exactly once, by a plain top-level assignment `name = <expr>` (no loops/branches around it)."""
+def single_defs(fn: ast.FunctionDef, anywhere: bool = False) -> dict[str, ast.AST]:
+    """Locals of fn bound exactly once, by a plain top-level assignment `name = <expr>` (no loops/branches around it);
+    with anywhere=True the single assignment may sit inside a loop / branch (use only where the use follows it in the same block)."""
     counts: dict[str, int] = {}
     for n in ast.walk(fn):
         if isinstance(n, ast.Name) and isinstance(n.ctx, (ast.Store, ast.Del)):
@@ -760,7 +761,7 @@ def single_defs(fn: ast.FunctionDef) -> dict[str, ast.AST]:
     for a in fn.args.posonlyargs + fn.args.args + fn.args.kwonlyargs:
         counts[a.arg] = counts.get(a.arg, 0) + 1
     out = {}
-    for s in strip_docstring(fn.body):
+    for s in (walk_no_nested(fn) if anywhere else strip_docstring(fn.body)):
         if isinstance(s, ast.Assign) and len(s.targets) == 1 and isinstance(s.targets[0], ast.Name) and counts.get(s.targets[0].id) == 1:
             out[s.targets[0].id] = s.value
     return out
